@@ -164,11 +164,18 @@ class Rec:
         self.evals = 0
         self.bad = []
         self.keymap = keymap or {}
+        self.context = ''
 
     def ck(self, ok, key, what):
         self.evals += 1
         if not ok:
-            self.bad.append((self.keymap.get(key, key), what() if callable(what) else what))
+            if callable(what):
+                try:
+                    what = what()
+                except Exception as e:   # noqa: BLE001 - e.g. the repr of a half-built instance raises
+                    what = '%s <the description of the observed value could not be formatted: %s>' % (
+                        self.context, show_exc(e))
+            self.bad.append((self.keymap.get(key, key), re.sub(r' at 0x[0-9a-fA-F]+', '', what)))
         return ok
 
     def call(self, label, fn, key='C19.unexpected_exception'):
@@ -403,7 +410,7 @@ def check_layout(spec):
     M = dataclasses.MISSING
     r = Rec(MAKE_KEYS if spec['how'] == 'make' else None)
     info = {'status': 'ok', 'nontrivial': False}
-    D = describe(spec)
+    D = r.context = describe(spec)
     N = NS_ARG[spec['ns']]                       # registration namespace (GLOBAL sentinel or a string)
     NL = '' if spec['ns'] == 'G' else spec['ns']   # the same namespace as a lookup argument
     opts = spec.get('opts') or {}
@@ -460,8 +467,8 @@ def check_layout(spec):
                                             lambda: optree.tree_leaves(oc[1], namespace=ns))
                             if ok:
                                 r.ck(len(lv) == 1 and lv[0] is oc[1], 'C19.rejects_non_init_pytree_node',
-                                     '%s: decoration raised TypeError but the class is registered: tree_leaves(obj, '
-                                     'namespace=%r) = %r, expected [obj]' % (D, ns, lv))
+                                     lambda: '%s: decoration raised TypeError but the class is registered: tree_leaves(obj, '
+                                             'namespace=%r) = %r, expected [obj]' % (D, ns, lv))
             else:
                 info['status'] = 'unexpected_exception'
                 r.ck(False, 'C19.unexpected_exception',
@@ -531,7 +538,8 @@ def check_layout(spec):
                 a = outcome(lambda: setattr(same_o[1], init_names[0], Leaf('set')))
                 b = outcome(lambda: setattr(same_t, init_names[0], Leaf('set')))
                 r.ck(a == b, K, lambda: '%s: setattr(obj, %r, ..) -> %r, stdlib twin: %r' % (D, init_names[0], a, b))
-            objs.append((variant, o))
+            if obs_o[-1][0] == 'ok':      # otherwise the instance is unusable (already reported above)
+                objs.append((variant, o))
         info['accepted'] = True
 
         # ---- pytree behaviour ---------------------------------------------------------------------------------
@@ -719,6 +727,7 @@ def _default_class():
 
 def check_rejection(rs):
     r = Rec()
+    r.context = 'check_rejection(%r)' % (rs,)
     kind = rs['kind']
     classes = []
     try:
@@ -792,7 +801,7 @@ def check_rejection(rs):
             r.ck(oc == ('exc', 'TypeError'), 'C19.rejects_decorating_twice', '%s: expected TypeError, got %r' % (D, oc))
             after = {ns: optree.tree_leaves(o, namespace=ns) for ns in ALL_NS}
             r.ck(all(same_objects(before[ns], after[ns]) for ns in ALL_NS), 'C19.rejects_decorating_twice',
-                 '%s: the rejected second decoration changed how instances flatten: before %r, after %r' % (D, before, after))
+                 lambda: '%s: the rejected second decoration changed how instances flatten: before %r, after %r' % (D, before, after))
             if oc[0] == 'ok' and isinstance(oc[1], type):
                 classes.append(oc[1])
             return r
@@ -810,7 +819,7 @@ def check_rejection(rs):
                                     lambda: optree.tree_leaves(inst[1], namespace=ns))
                     if ok:
                         r.ck(len(lv) == 1 and lv[0] is inst[1], key,
-                             '%s was rejected but the class is registered: tree_leaves(cls(), namespace=%r) = %r' % (D, ns, lv))
+                             lambda: '%s was rejected but the class is registered: tree_leaves(cls(), namespace=%r) = %r' % (D, ns, lv))
         return r
     finally:
         cleanup(new_track(), classes)
@@ -889,7 +898,7 @@ def expected_call(ps, pre_args, pre_kw, margs, mkw, extra, extra_kw):
 
 def check_partial(ps):
     r = Rec()
-    D = describe_partial(ps)
+    D = r.context = describe_partial(ps)
     f, inner, args, kw, pre_args, pre_kw = build_partial(ps)
     info = {'nontrivial': bool(ref_flatten((tuple(args), kw), False))}
     KF, KN, KM = 'C19.partial_flattens_to_args_keywords', 'C19.partial_not_merged', 'C19.partial_tree_map_calls_same_function'
@@ -1230,8 +1239,9 @@ def _rejections():
 def _run(ctx: U.Ctx, tier: str, seed: int) -> BoundedReport:
     counts: dict = {}
     status: dict = {}
+    sampled: set = set()
 
-    def record(fn, spec, rec, desc):
+    def record(fn, spec, rec):
         ctx.count(rec.evals)
         seen = set()
         for key, what in rec.bad:
@@ -1243,7 +1253,7 @@ def _run(ctx: U.Ctx, tier: str, seed: int) -> BoundedReport:
     # rejections that do not depend on a layout
     for rs in _rejections():
         ctx.progress('check_rejection(%r)' % (rs,))
-        record('check_rejection', rs, check_rejection(rs), repr(rs))
+        record('check_rejection', rs, check_rejection(rs))
         counts['rejections'] = counts.get('rejections', 0) + 1
 
     # partial: given a third of the budget at most
@@ -1258,7 +1268,7 @@ def _run(ctx: U.Ctx, tier: str, seed: int) -> BoundedReport:
             break
         ctx.progress('check_partial(%r)' % (ps,))
         rec, info = check_partial(ps)
-        record('check_partial', ps, rec, None)
+        record('check_partial', ps, rec)
         n_part += 1
         if info['nontrivial']:
             ctx.mark_nontrivial('partial:' + repr(ps))
@@ -1278,10 +1288,11 @@ def _run(ctx: U.Ctx, tier: str, seed: int) -> BoundedReport:
             continue
         n_lay += 1
         counts[section] = counts.get(section, 0) + 1
-        record('check_layout', spec, rec, None)
+        record('check_layout', spec, rec)
         if info['nontrivial']:
             ctx.mark_nontrivial(describe(spec))
-            if counts[section] in (3, 50) and section in ('S2', 'inherit', 'S3'):
+            if section in ('make', 'inherit', 'S2', 'S3') and section not in sampled and counts[section] >= 40:
+                sampled.add(section)
                 ctx.sample(describe(spec))
 
     ctx.notes.append(
